@@ -28,6 +28,13 @@ def runS (cfgs : List String) (ops : List (List String)) : String :=
     { w := BufW.new ww checks cap, r := m3.mkReader data, r2 := m3.mkReader data }
   let s1 : Sess RefW RefR :=
     { w := { e := e, W := ww, checks := checks, cap := cap }, r := m1.mkReader data, r2 := m1.mkReader data }
+  if kv cfgs "wrap" == some "count" then
+    let c3 := machCount m3
+    let c1 := machCountRef m1
+    let o3 := sessRun c3 { w := { inner := s3.w }, r := c3.mkReader data, r2 := c3.mkReader data } ops []
+    let o1 := sessRun c1 { w := { inner := s1.w }, r := c1.mkReader data, r2 := c1.mkReader data } ops []
+    ";".intercalate o3 ++ " || " ++ ";".intercalate o1
+  else
   let o3 := sessRun m3 s3 ops []
   let o1 := sessRun m1 s1 ops []
   ";".intercalate o3 ++ " || " ++ ";".intercalate o1
